@@ -126,6 +126,13 @@ def _check_case(case, cls, route, V):
         if got != b:
             viol("to_bits", "to_bits() of value %s gives bits (LSB first) %s, specification %s" % (v, got, b))
             return nev
+        ok, got = guarded("to_bits", lambda: (L.scribble(o.to_bits()), L.bits_of(o.to_bits(), nbits, "to_bits()"))[1])
+        if not ok:
+            return nev
+        if got != b:
+            viol("to_bits-aliases-field", "after overwriting the Bits object returned by to_bits() in place, to_bits() "
+                 "of value %s gives %s, specification %s" % (v, got, b))
+            return nev
         ok, f = guarded("from_bits", lambda: cls.from_bits(L.mkbits(b)))
         if not ok:
             return nev
@@ -542,7 +549,7 @@ def _tiny_one(args):
     fn = os.path.join(sdir, "tiny_%d.json" % idx)
     with open(fn, "w") as f:
         json.dump({"shape": shape}, f)
-    cfg = ("SPECIFICATION Spec\nCONSTANTS Shape <- InputShape\n Names = {\"x\", \"y\"}\n"
+    cfg = ("SPECIFICATION Spec\nCONSTANTS Names = {\"x\", \"y\"}\n"
            "INVARIANT TypeOK\nINVARIANT PackedAgrees\nPROPERTY NoAliasing\nPROPERTY NbInvisible\n"
            "CHECK_DEADLOCK FALSE\n")
     r, states, init, edges = tlc.dump_graph("BitStructTiny", cfg_text=cfg, env={"VERIF_INPUT": fn}, timeout=3000)
@@ -791,8 +798,14 @@ def _history(R, cls, shape, nev):
     nb = L.total_bits(shape)
     paths = L.leaf_paths(shape)
     ev = [{"op": "nbits", "n": cls.nbits}]
+    if cls.nbits != nb:
+        return ev, None                 # not the declared type at all: BitStructTrace rejects the nbits event
     if len(paths) <= 160:
-        ev.append({"op": "layout", "entries": _measure_layout(cls, shape, nb)})
+        try:
+            ev.append({"op": "layout", "entries": _measure_layout(cls, shape, nb)})
+        except Exception as ex:  # noqa: BLE001 - the class does not have the declared structure
+            return ev, ("layout:raises", "measuring the layout (one leaf at a time set to ones) raised %s: %s"
+                        % (type(ex).__name__, ex))
     real, pend = {}, {}
 
     def post():
@@ -856,6 +869,9 @@ def _history(R, cls, shape, nev):
                 cur = {"op": "mutate", "d": d, "path": path, "kind": R.choice(["inplace", "rebind"]), "x": x}
             elif r < 0.90:
                 cur = {"op": "pack", "d": d}
+                tb = real[d].to_bits()
+                ev.append({"op": "pack", "d": d, "bits": L.bits_of(tb, nb, "to_bits()")})
+                L.scribble(tb)                          # the packed value is a new object, not a field of d
                 ev.append({"op": "pack", "d": d, "bits": L.bits_of(real[d].to_bits(), nb, "to_bits()")})
                 continue
             elif r < 0.95:
